@@ -383,18 +383,30 @@ Proof.
   exists (4 + 11 * List.length l). lia.
 Qed.
 
-Lemma format_pre_eof : forall l,
-  GG.entry GG.exn_ancestors GG.parse_format_handlers
-    (match format_pre l with ROk v [] => ROk v [] | ROk _ (_ :: _) => RFail | r => r end)
-  = back_fres (parse_format_chars l).
+(** what the [format] production leaves, by the answer of the hand model *)
+Lemma format_pre_cases : forall l,
+  match parse_format_chars l with
+  | FOk f => format_pre l = ROk (VU (GG.UFormat (back_format f))) []
+  | FSyntax => exists v c r, format_pre l = ROk v (c :: r)
+  | FInvalid => format_pre l = RExn "InvalidModeOrderingError"
+  | FFuel => format_pre l = RFuel
+  end.
 Proof.
   intros l. unfold format_pre, parse_format_chars.
   destruct (rep_pairs (S (List.length l)) l) as [[[|p ps] r1]|]; [| |reflexivity].
-  - cbv zeta. destruct (rep_modes l) as [ms r0]. cbn [fst snd]. destruct r0; reflexivity.
+  - cbv zeta. destruct (rep_modes l) as [ms r0]. cbn [fst snd]. destruct r0; [reflexivity|]. eauto.
   - rewrite map_length.
     destruct (check_ordering (List.length (p :: ps)) (map snd (p :: ps))); [|reflexivity].
-    destruct r1; reflexivity.
+    destruct r1; [reflexivity|]. eauto.
 Qed.
+
+(** the except clauses of the entry points catch InvalidModeOrderingError *)
+Lemma format_handlers_catch :
+  GG.is_caught GG.exn_ancestors GG.parse_format_handlers "InvalidModeOrderingError" = true.
+Proof. vm_compute. reflexivity. Qed.
+Lemma named_format_handlers_catch :
+  GG.is_caught GG.exn_ancestors GG.parse_named_format_handlers "InvalidModeOrderingError" = true.
+Proof. vm_compute. reflexivity. Qed.
 
 Theorem gen_parse_format_equiv : forall s : string,
   GG.parse_format s = back_fres (FormatParser.parse_format s).
@@ -402,7 +414,12 @@ Proof.
   intros s. unfold GG.parse_format, Parsita.parse, FormatParser.parse_format, parse_fuel.
   destruct (format_fuel (list_ascii_of_string s)) as [k ->].
   change GG.parse_format_start with "format"%string.
-  rewrite L_format. apply format_pre_eof.
+  rewrite L_format. pose proof (format_pre_cases (list_ascii_of_string s)) as FC.
+  destruct (parse_format_chars (list_ascii_of_string s)) as [f| | |].
+  - rewrite FC. reflexivity.
+  - destruct FC as (v & c & r & ->). reflexivity.
+  - rewrite FC. unfold GG.entry. rewrite format_handlers_catch. reflexivity.
+  - rewrite FC. reflexivity.
 Qed.
 
 (* ------------------------------------------------------------------------------------------ *)
@@ -519,10 +536,44 @@ Proof.
   destruct r as [|x r']; [reflexivity|].
   destruct (Ascii.eqb_spec x ":") as [->|NE].
   2:{ destruct x as [[] [] [] [] [] [] [] []]; try reflexivity. exfalso. apply NE. reflexivity. }
-  pose proof (format_pre_eof r') as FE.
-  destruct (parse_format_chars r') as [f| | |]; destruct (format_pre r') as [v [|y r'']| |e| |];
-    unfold GG.entry, back_fres, back_named in FE |- *;
-    try (destruct (GG.is_caught GG.exn_ancestors GG.parse_format_handlers e) eqn:CE;
-         change GG.parse_named_format_handlers with GG.parse_format_handlers; rewrite ?CE);
-    try discriminate; try reflexivity; try exact FE; try (inversion FE; subst; reflexivity).
+  pose proof (format_pre_cases r') as FC.
+  destruct (parse_format_chars r') as [f| | |].
+  - rewrite FC. reflexivity.
+  - destruct FC as (v & c0 & r0 & ->). reflexivity.
+  - rewrite FC. unfold GG.entry. rewrite named_format_handlers_catch. reflexivity.
+  - rewrite FC. reflexivity.
+Qed.
+
+(* ------------------------------------------------------------------------------------------ *)
+(** ** C12_format_roundtrip / C12_named_format_roundtrip on the regenerated grammar *)
+
+Theorem gen_format_roundtrip : forall f : format, wf_format f = true ->
+  exists s, deparse_format f = Some s
+            /\ GG.parse_format (string_of_list_ascii s) = GG.PSuccess (VU (GG.UFormat (back_format f))).
+Proof.
+  intros f W. destruct (TV.proofs.ParserFormat.format_roundtrip f W) as (s & D & P).
+  exists s. split; [exact D|]. rewrite gen_parse_format_equiv. unfold FormatParser.parse_format.
+  rewrite las_sla, P. reflexivity.
+Qed.
+
+Theorem gen_named_format_roundtrip : forall (nm : list ascii) (f : format),
+  (match nm with c :: _ => is_var_start c = true | [] => False end) ->
+  forallb is_var_char nm = true -> wf_format f = true ->
+  exists s, deparse_format f = Some s
+            /\ GG.parse_named_format (string_of_list_ascii (nm ++ ":"%char :: s))
+               = GG.PSuccess (VList [VStr (string_of_list_ascii nm); VU (GG.UFormat (back_format f))]).
+Proof.
+  intros nm f H1 H2 W. destruct (TV.proofs.ParserFormat.named_format_roundtrip nm f H1 H2 W) as (s & D & P).
+  exists s. split; [exact D|]. rewrite gen_parse_named_format_equiv. unfold FormatParser.parse_named_format.
+  rewrite las_sla, P. reflexivity.
+Qed.
+
+(** what the regenerated format parser returns is a Success or a typed Failure, never an escaping
+    exception, a stuck action or exhausted fuel *)
+Theorem gen_parse_format_total : forall s : string,
+  match GG.parse_format s with GG.PSuccess _ | GG.PFailure _ => True | _ => False end.
+Proof.
+  intros s. rewrite gen_parse_format_equiv. unfold FormatParser.parse_format.
+  pose proof (TV.proofs.ParserFormat.parse_format_fuel_sufficient (list_ascii_of_string s)) as NF.
+  destruct (parse_format_chars (list_ascii_of_string s)); try exact I. congruence.
 Qed.
